@@ -1,9 +1,14 @@
 (* C03 — statements are recovered exactly, whatever the layout of the config text.
-   Proved so far: strictness of scoped names and the key splitting.  The full statement round-trip over
-   all layouts is NOT yet proved (it is carried by the correspondence engine parser-stmts); hence the
-   level claimed for C03 is translation validation. *)
+   Proved: (1) strictness of scoped names and the key splitting; (2) the statement round-trip: a file that
+   spells a sequence of flat bindings / macro definitions (any literal value of the grammar of C02 in any
+   layout of blanks, comments and continuation lines, any leading blank / comment lines, any trailing
+   comment) and imports in the four forms (import m, import m as a, from p import n, from p import n as a),
+   in any order, is read as exactly that sequence; (3) two layouts of the same statements give the same
+   statements (line numbers aside).
+   NOT yet proved in Coq (carried by the correspondence engine parser-stmts and the independent predicates
+   of harness/props/c03.py): the indented-block layout and include statements. *)
 From Coq Require Import List String ZArith Bool Arith.
-From GinV Require Import Lib.Out Lib.PyStr Model.Parser Model.ParserSpec Proofs.ParserSmall.
+From GinV Require Import Lib.Out Lib.PyStr Model.Parser Model.ParserSpec Model.ParserSpec2 Model.ParserEngine Proofs.ParserSmall Proofs.ParserProofs Proofs.StatementProofs.
 Import ListNotations.
 Open Scope string_scope.
 Open Scope list_scope.
@@ -31,7 +36,59 @@ Theorem C03_split_scoped : forall scope sel, contains_char slash sel = false -> 
   split_scoped (scope ++ "/" ++ sel)%string = (scope, sel).
 Proof. exact split_scoped_spec. Qed.
 
+(* ---- one statement ---- *)
+Theorem C03_binding_statement : forall o lit lay n v vtoks n' trailing lead row parts rest,
+  lay_ok lay -> lit_wf o lit -> py_eval o lit = Some v -> render lit lay n false = (vtoks, n') -> Forall tok_ok vtoks ->
+  Forall trivia_tok trailing -> Forall lead_tok lead -> wf_name parts ->
+  parse_statement o false (lead ++ binding_tokens row parts vtoks trailing ++ rest) =
+  POk (Some ([let '(scope, sel, arg) := split_binding_key (name_text parts) in SBind scope sel arg v row],
+            tok NEWLINE "" row :: rest, true)).
+Proof. exact StatementProofs.C03_binding_statement. Qed.
+
+Theorem C03_import_statement : forall o row mparts alias rest,
+  wf_name mparts -> selector_format_ok false false (name_text mparts) = true ->
+  (forall a, alias = Some a -> is_identifier a = true) ->
+  parse_statement o false (import_tokens row mparts alias ++ rest) =
+  POk (Some ([SImport (name_text mparts) false alias row], tok NEWLINE "" row :: rest, true)).
+Proof. exact StatementProofs.C03_import_statement. Qed.
+
+Theorem C03_from_statement : forall o row mparts leaf alias rest,
+  wf_name mparts -> selector_format_ok false false (name_text mparts) = true ->
+  is_identifier leaf = true -> (forall a, alias = Some a -> is_identifier a = true) ->
+  parse_statement o false (from_tokens row mparts leaf alias ++ rest) =
+  POk (Some ([SImport (name_text mparts ++ "." ++ leaf)%string true alias row], tok NEWLINE "" row :: rest, true)).
+Proof. exact StatementProofs.C03_from_statement. Qed.
+
+(* ---- whole files: exactly the statements spelled, in order, nothing else, no error ---- *)
+Theorem C03_roundtrip : forall o its final_lead eof,
+  Forall (ritem_ok o) its -> Forall lead_tok final_lead -> ty eof = ENDMARKER ->
+  exists fuel0, forall fuel, fuel0 <= fuel ->
+    parse_all fuel o false (render_items_file its ++ final_lead ++ [eof]) [] = (map ritem_expected its, None).
+Proof. exact C03_roundtrip_mixed. Qed.
+
+(* the engine entry point that the correspondence check runs (its own fuel suffices) *)
+Theorem C03_roundtrip_engine : forall o rs final_lead eof,
+  Forall (rstmt_ok o) rs -> Forall lead_tok final_lead -> ty eof = ENDMARKER ->
+  run_stmts (o, render_file rs ++ final_lead ++ [eof]) = OL (map stmt_out (map expected rs)).
+Proof. exact C03_run_stmts. Qed.
+
+(* ---- two layouts of the same statements ---- *)
+Theorem C03_layout_irrelevant : forall o rs1 rs2 fl1 fl2 eof1 eof2,
+  Forall (rstmt_ok o) rs1 -> Forall (rstmt_ok o) rs2 ->
+  map (fun r => (rs_parts r, rs_value r)) rs1 = map (fun r => (rs_parts r, rs_value r)) rs2 ->
+  Forall lead_tok fl1 -> Forall lead_tok fl2 -> ty eof1 = ENDMARKER -> ty eof2 = ENDMARKER ->
+  exists fuel, map strip_line (fst (parse_all fuel o false (render_file rs1 ++ fl1 ++ [eof1]) [])) =
+               map strip_line (fst (parse_all fuel o false (render_file rs2 ++ fl2 ++ [eof2]) [])) /\
+               snd (parse_all fuel o false (render_file rs1 ++ fl1 ++ [eof1]) []) = None.
+Proof. exact StatementProofs.C03_layout_irrelevant. Qed.
+
 Print Assumptions C03_selector_strict.
 Print Assumptions C03_selector_rejects_gap.
 Print Assumptions C03_split_binding_key.
 Print Assumptions C03_split_scoped.
+Print Assumptions C03_binding_statement.
+Print Assumptions C03_import_statement.
+Print Assumptions C03_from_statement.
+Print Assumptions C03_roundtrip.
+Print Assumptions C03_roundtrip_engine.
+Print Assumptions C03_layout_irrelevant.
